@@ -338,14 +338,19 @@ def counts(E):
             G.Rx(0.3) @ G.Ket(1) >> G.CX >> Id(1) @ G.Ry(0.7),
             G.Ket(0, 0) >> G.H @ Id(1) >> G.CX >> Discard() @ Measure(),
             G.H >> G.Rz(0.3) >> G.H, Id(0), G.Ket(1) >> G.scalar(1j) @ G.X,
+            G.Ket(0) >> G.H >> G.Bra(0),
+            G.Ket(0, 0) >> G.H @ Id(1) >> G.CX >> G.Bra(0) @ G.Bra(0),
+            G.H >> G.Bra(1),
             G.Ket(0) @ G.Ket(0) @ G.Ket(0) >> G.H @ G.H @ Id(1)
             >> Id(1) @ G.CX]
     c = E.choice('circuit', pool)
     ev = np.asarray(c.init_and_discard().eval(mixed=True).array,
                     dtype=complex)
     n = len(c.init_and_discard().cod)
-    E.check(abs(ev.sum() - 1) < 1e-9 and np.allclose(ev.imag, 0)
-            and (ev.real > -1e-12).all(), "C12:counts:not-a-distribution")
+    postselected = any(isinstance(b, G.Bra) for b in c.boxes)
+    E.check((postselected or abs(ev.sum() - 1) < 1e-9)
+            and np.allclose(ev.imag, 0) and (ev.real > -1e-12).all(),
+            "C12:counts:not-a-distribution")
     cnt = c.get_counts()
     for bits in itertools.product((0, 1), repeat=n):
         v = ev[bits] if n else ev.flatten()[0]
@@ -363,7 +368,7 @@ def counts(E):
         E.check(np.allclose(meas.flatten(), (abs(amp) ** 2).flatten()),
                 "C12:measure:pure-differs-from-born-rule",
                 info="%s vs %s" % (meas.flatten(), (abs(amp) ** 2).flatten()))
-        E.check(abs(meas.sum() - 1) < 1e-9,
+        E.check(postselected or abs(meas.sum() - 1) < 1e-9,
                 "C12:measure:not-a-distribution")
     E.cover("counts")
 
@@ -396,7 +401,7 @@ def harnesses(tier):
           "Discard, Copy, generic stochastic 1-bit gate}" % (2 if q else 3),
           outside="deeper circuits", timeout_s=T),
         H("counts", counts, {}, FUNCS, covers=["counts"],
-          engine="numeric cross-check on 11 concrete circuits (get_counts / "
+          engine="numeric cross-check on 14 concrete circuits (get_counts / "
           "measure use .real and truthiness: cannot carry symbols)",
-          bounds="11 fixed circuits", outside="everything symbolic",
+          bounds="14 fixed circuits", outside="everything symbolic",
           timeout_s=T)]
